@@ -167,8 +167,8 @@ def gen_body(rng, fs, own_params, callees, modes_pool, top=False):
         body.append({"k": "var", "name": n, "type": "float", "e": expr(rng, own_params, vars_)})
         vars_.append(n)
     ivars = []
-    if top and rng.random() < 0.4:
-        # integer variables used as call-site / operation modes
+    if rng.random() < (0.4 if top else 0.25):
+        # integer variables used as call-site modes (in libraries too)
         for j in range(rng.randint(1, 2)):
             body.append({"k": "var", "name": "n%d" % j, "type": "int", "e": {"c": rng.randrange(0, 12), "t": []}})
             ivars.append("n%d" % j)
@@ -205,7 +205,15 @@ def gen_body(rng, fs, own_params, callees, modes_pool, top=False):
         small = [c for c in callees if len(c["modes"]) <= 2]
         if small and rng.random() < 0.5:
             lb.append(gen_call(rng, rng.choice(small), own_params, vars_, loopvar=lv))
-        stmts.insert(rng.randint(0, len(stmts)), {"k": "loop", "var": lv, "vals": vals, "body": lb})
+        loop = {"k": "loop", "var": lv, "vals": vals, "body": lb}
+        if rng.random() < 0.4:
+            # a range header a:b or a:b:c (never empty; the values replace the list)
+            a0 = rng.randrange(0, 5)
+            step = rng.choice([1, 1, 2, 3])
+            n_it = rng.randint(1, 3)
+            loop["range"] = [a0, a0 + step * n_it] + ([step] if step != 1 or rng.random() < 0.3 else [])
+            loop["vals"] = list(range(*loop["range"]))
+        stmts.insert(rng.randint(0, len(stmts)), loop)
     # make sure every parameter is mentioned (otherwise it is not a parameter)
     return body + stmts
 
